@@ -123,6 +123,48 @@ def props_check(pid, log):
     return theorems, assumptions, problems
 
 
+TIE_NEEDS = {
+    # which theorems of the tie by regeneration (coq/theories/Tie) a property's model functions rest on
+    'C01': ['tie_floorMod', 'tie_Timestamp_Sub', 'tie_pointIndex', 'tie_intervalForWrite'],
+    'C02': ['tie_constants', 'tie_floorMod', 'tie_intervalForWrite'],
+    'C03': ['tie_Timestamp_Add', 'tie_Timestamp_Sub', 'tie_MaxRetention', 'tie_intervalForWrite'],
+    'C04': ['tie_constants', 'tie_Timestamp_Add', 'tie_Timestamp_Sub', 'tie_MaxRetention', 'tie_floorMod', 'tie_interval'],
+    'C06': ['tie_constants', 'tie_pointIndex', 'tie_pointOffsetAt', 'tie_Header_Size'],
+    'C07': ['tie_MaxRetention'],
+    'C19': ['tie_constants'],
+    'C20': ['tie_Timestamp_Add', 'tie_Timestamp_Truncate'],
+}
+
+
+def tie_check(pid, log):
+    """-> (theorems needed, {theorem: Print Assumptions answer}, problems): the state of the tie by
+    regeneration for this property, as bin/build-tie (run by bin/build-model) left it."""
+    need = TIE_NEEDS.get(pid, [])
+    if not need:
+        return [], {}, []
+    try:
+        st = json.load(open(V + '/coq/.tie.status.%s.json' % hashlib.sha256(REPO.encode()).hexdigest()[:8]))
+    except Exception as ex:
+        return need, {}, ['tie by regeneration: no status (%s)' % ex]
+    if 'error' in st:
+        return need, {}, ['tie by regeneration: ' + st['error']]
+    log['tie_generated_from'] = st.get('generated_from')
+    log['tie_not_translated'] = st.get('not_translated')
+    problems, ass = [], {}
+    for base in ('GoKernel', 'TieBase'):
+        if not st['theorems'].get(base, {}).get('ok'):
+            problems.append('tie by regeneration: %s.v does not compile: %s' % (base, st['theorems'].get(base, {}).get('output', '')[-600:]))
+    for t in need:
+        r = st['theorems'].get(t, {})
+        if r.get('ok'):
+            ass[t] = r.get('output', '')
+        else:
+            problems.append('tie by regeneration: theorem %s (the hand-written model equals the translation of the '
+                            'current Go source, coq/theories/Tie/%s.v against coq/theories/Gen/GoKernel.v) no longer checks: %s'
+                            % (t, t, r.get('output', '')[-600:]))
+    return need, ass, problems
+
+
 def coqchk(pid, log):
     """Thorough tier: clean rebuild in a scratch copy and independent re-check with coqchk."""
     tmp = tempfile.mkdtemp(prefix='wtchk')
